@@ -101,6 +101,10 @@ def universe(tier):
         # empty arrays of different shapes; an object array whose cell is a one-element array (a container, not the number in it)
         ('arr(0,2)q', np.zeros((0, 2))), ('arr(2,0)q', np.zeros((2, 0))), ('arr(0,0)', np.zeros((0, 0))), ('arrO[1,arr[2]]', _objarr([1, np.array([2])])),
         ('arrO[1,2]', _objarr([1, 2])), ('[1,arr[2]]', [1, np.array([2])]),
+        # same-content instances of SUBCLASSES of tuple / list (a namedtuple, a user list class): a different container type
+        ('Point(1,2)', _Point(1, 2)), ('MyList[1,2]', _MyList([1, 2])), ('[Point(1,2)]', [_Point(1, 2)]), ("{'a':Point(1,2)}", {'a': _Point(1, 2)}),
+        # int arrays beyond the float mantissa against the float array they round to
+        ('arr[2**53,1]i', np.array([2 ** 53, 1])), ('arr[2**53+1,1]i', np.array([2 ** 53 + 1, 1])), ('arr[2.**53,1.]', np.array([2.0 ** 53, 1.0])),
         ('buf[:2]', buf[:2]), ('buf[1:]', buf[1:]), ('buf[::-1][1:]', buf[::-1][1:]), ('sq.T', sq.T), ('[buf[:2]]', [buf[:2]]), ('[buf[1:]]', [buf[1:]]),
     ]
     if tier == 'quick':
@@ -144,6 +148,13 @@ def universe(tier):
     return U
 
 
+_Point = __import__('collections').namedtuple('_Point', 'x y')
+
+
+class _MyList(list):
+    pass
+
+
 def _objarr(xs):
     a = np.empty(len(xs), dtype=object)
     for i, v in enumerate(xs):
@@ -166,6 +177,8 @@ def fresh_copy(x):
         return type(x)(x)
     if isinstance(x, dict):
         return type(x)({k: fresh_copy(v) for k, v in x.items()})
+    if isinstance(x, tuple) and hasattr(x, '_fields'):
+        return type(x)(*[fresh_copy(v) for v in x])          # a namedtuple takes its fields one by one
     if isinstance(x, (list, tuple)):
         return type(x)(fresh_copy(v) for v in x)
     if type(x) is float:
@@ -218,6 +231,11 @@ def _cell(a, b):
     na, nb = _isnan(a), _isnan(b)
     if na or nb:
         return (na and nb), 'nan'
+    # cells are compared as the VALUES they hold (exactly: the int 2**53+1 is not the float 2.0**53), not after numpy's promotion to a common dtype
+    if isinstance(a, (np.integer, np.floating, np.bool_)):
+        a = a.item()
+    if isinstance(b, (np.integer, np.floating, np.bool_)):
+        b = b.item()
     try:
         return bool(a == b), 'cell'
     except Exception:
@@ -241,7 +259,7 @@ def model(x, y):
         if type(x) in _PLAIN_SCALARS and type(y) in _PLAIN_SCALARS:
             return bool(x == y), 'plain'
         return None, 'unspecified'
-    if kx in ('list', 'tuple'):
+    if isinstance(x, (list, tuple)):                  # incl. subclasses (a namedtuple, a user list): kx == ky says they are the SAME class
         if len(x) != len(y):
             return False, 'struct'
         return _all_of(model(a, b) for a, b in zip(x, y))
@@ -267,7 +285,7 @@ def _leaves(v):
     k = kind(v)
     if k == 'scalar':
         yield v
-    elif k in ('list', 'tuple'):
+    elif isinstance(v, (list, tuple)):
         for i in v:
             yield from _leaves(i)
     elif k == 'ndarray':
@@ -304,8 +322,8 @@ def _is_plain(v):
     k = kind(v)
     if k == 'scalar':
         return type(v) in _PLAIN_SCALARS and not _isnan(v)
-    if k in ('list', 'tuple'):
-        return all(_is_plain(i) for i in v)
+    if isinstance(v, (list, tuple)):
+        return type(v) in (list, tuple) and all(_is_plain(i) for i in v)
     if k in ('ndarray', 'Series', 'DataFrame'):
         return False
     return all(isinstance(key, str) and _is_plain(i) for key, i in v.items())
@@ -322,9 +340,9 @@ def erased_eq(x, y):
             return list(v.values)
         if k == 'DataFrame':
             return [list(r) for r in v.values]
-        if k == 'tuple':
+        if isinstance(v, (list, tuple)):
             return list(v)
-        if k not in ('scalar', 'list'):
+        if k != 'scalar':
             return dict(v)
         return v
     x, y = norm(x), norm(y)
